@@ -2,13 +2,18 @@ from .common import COMMON_TB
 
 CFG = dict(
     coq=["Properties/C06.v", "Properties/C06Mt.v"],
-    areas=["lzmadec", "mt"],
+    areas=["lzmadec", "mt", "c04"],
     level="proof",
+    # c04's own oracle (content of damaged files) is C04's business; here only totality counts
+    oracle_filter={"c04": r"PANIC|TIMEOUT|RUNAWAY|panic|hang|terminat|endless|without bound|HARNESS"},
     theorems_expected=["C06_decode_bit_never_panics", "C06_run_rc_total", "C06_window_rejects_far", "C06_decode_total", "C06_lzip_scan_total"],
     rule="cases = streams produced by the crate's LZMA/LZMA2 writers under random in-range options (plus trailing bytes), the same streams "
          "corrupted (bit flip, byte substitution, truncation, deletion, header flip) and random byte strings, each fed to LZMAReader "
          "(new_mem_limit / new_with_props / new) and LZMA2Reader with a destination-size history; the observation "
          "(END+bytes+unconsumed | ERR kind+bytes | constructor error | PANIC | TIMEOUT) must equal the extracted model's; "
+         "area c04 (shared with C04): XZ and LZIP files damaged in every structural region (single byte substitutions, truncation at every "
+         "boundary, size/count fields at their borders incl. the 2^63-1 index record count) read by XZReader / LZIPReader and by the extracted "
+         "container models: outcome class, bytes and error kind must agree, PANIC / TIMEOUT / RUNAWAY are failures; "
          "area mt (shared with C08-C10): the multi-threaded readers/writers on the shuttle scheduler, including LZIP files whose member_size "
          "fields are hostile (0 in the last or an earlier member, below a header, off by one, beyond the file, 2^63, 2^64-1), truncated, bit-flipped or "
          "prefixed by garbage: LZIPReaderMT::new must return a member count or an error equal to the model's scan_members, within the watchdog's "
